@@ -211,9 +211,36 @@ def run(R):
     deep_a = [[R4([0, 2], ['betax']), R4([4, 6], ['betay']), R4([2, 4], ['betaz']), R4([0, 2, 4, 6], ['betaup3']), R4([0, 2, 4, 6], ['alpha', 'betaup3'])],
               [R4([4], ['gxx']), R4([6], ['gyy']), R4([4, 6, 8], ['gammadown3']), R4([8, 6, 4], ['gammadown3'])]]
     jobs += [(h, gflag, 'B') for h in deep_b for gflag in (False, True)] + [(h, gflag, 'A') for h in deep_a for gflag in (False, True)]
+    # random histories of 4-6 calls: any mixture of component / tensor names, iteration subsets, levels, cached and uncached calls
+    import random as _random
+    rng = _random.Random(f'C12/{R.seed}')
+    names = ['alpha', 'betax', 'betay', 'betaz', 'betaup3', 'gxx', 'gyy', 'gxz', 'gammadown3']
+    nrand = 1500 if R.tier == 'quick' else 20000
+    comps = {'betaup3': ['betax', 'betay', 'betaz'], 'gammadown3': ['gxx', 'gxy', 'gxz', 'gyy', 'gyz', 'gzz']}
+    for n_ in range(nrand):
+        which = rng.choice('AB')
+        its_all = [0, 2, 4, 6, 8] if which == 'A' else list(range(8, 26, 2))
+        h = []
+        if n_ % 2 == 0:
+            # template: several components of one tensor cached on their own at random subsets, then the tensor (twice)
+            T = rng.choice(list(comps))
+            block = its_all if which == 'A' else rng.sample([its_all[:5], its_all[3:], its_all[1:7]], 1)[0]
+            for cname in rng.sample(comps[T], rng.randint(2, 3)):
+                h.append(dict(it=rng.sample(block, rng.randint(1, max(1, len(block) - 2))), vars=[cname], rl=0))
+            wide = rng.sample(block, rng.randint(max(2, len(block) - 2), len(block)))
+            h.append(dict(it=wide, vars=rng.choice([[T], ['alpha', T], [T, 'alpha']]), rl=0))
+            h.append(dict(it=list(wide), vars=[T], rl=0))
+            jobs.append((h, rng.random() < 0.7, which))
+            continue
+        for _c in range(rng.randint(4, 6)):
+            req = dict(it=rng.sample(its_all, rng.randint(1, min(5, len(its_all)))), vars=rng.sample(names, rng.randint(1, 2)), rl=rng.choice([0, 0, 0, 1]))
+            if rng.random() < 0.1:
+                req['split_per_it'] = False
+            h.append(req)
+        jobs.append((h, rng.random() < 0.6, which))
     t0 = time.time()
     with mp.Pool(14) as pool:
-        res = pool.map(run_history, jobs, chunksize=4)
+        res = pool.map(run_history, jobs, chunksize=16)
     agg = {}
     total = 0
     for fails, checks in res:
@@ -226,7 +253,7 @@ def run(R):
               '(c) rows are the sorted requested iterations that exist; columns have equal length', '(d) an identical second call returns the same values',
               '(d) ... and takes them from the cache (no ET read)', 'reads do not raise']
     secs = time.time() - t0
-    R.bounded.append(dict(function='read_data with split_per_it (history of calls)', bound=f'{len(jobs)} histories (<= 3 calls from two pools, plus 4-5 call histories caching every component of a tensor separately) over {len(POOL)} + {len(POOL_B)} requests (up to 8 iterations per request, cached iterations in the interior of a block) x grouped/ungrouped; {total} checks; contents opaque'))
+    R.bounded.append(dict(function='read_data with split_per_it (history of calls)', bound=f'{len(jobs)} histories (<= 3 calls from two pools, plus 4-5 call histories caching every component of a tensor separately, plus random histories of 4-6 calls) over {len(POOL)} + {len(POOL_B)} requests (up to 8 iterations per request, cached iterations in the interior of a block) x grouped/ungrouped; {total} checks; contents opaque'))
     for lb in labels:
         R.ob(f'reading.read_ET_data[cache]:{lb}', 'read_ET_data', 'refuted' if lb in agg else 'bounded-ok', 'model-histories', secs / len(labels),
              agg.get(lb, ''), [lb] if lb in agg else None, bounded=f'{len(jobs)} histories', replay=native_replay)
